@@ -333,7 +333,7 @@ func genHooks(l *Loader) (string, string, error) {
 	b.WriteString("     hr_dir       : Desc = the loop index runs from len-1 down to 0, i.e. the wrapper of the FIRST\n")
 	b.WriteString("                    plugin is applied last and is the outermost; Asc = the opposite\n")
 	b.WriteString("     hr_nil_default : a no-op hook is substituted when srv.hooks.<hr_base> is nil *)\n")
-	b.WriteString("From Coq Require Import String List.\nImport ListNotations.\nOpen Scope string_scope.\n\n")
+	b.WriteString("From Coq Require Import String List.\nImport ListNotations.\nLocal Open Scope string_scope.\n\n")
 	b.WriteString("Inductive fold_dir := Desc | Asc | NoLoop.\n\n")
 	b.WriteString("Record hook_row := mk_hook_row {\n  hr_field : string;      (* field of HookWrapper *)\n  hr_kind : string;       (* hook kind K of `type <field type> func(K) K` *)\n")
 	b.WriteString("  hr_collected : bool;\n  hr_applied : bool;\n  hr_dir : fold_dir;\n  hr_base : string;       (* Hooks field the fold starts from *)\n  hr_store : string;      (* Hooks field the result is stored to *)\n  hr_nil_default : bool\n}.\n\n")
